@@ -63,7 +63,21 @@ CLAIM = {
             'are parameters of the model. Views-agree theorems need the shape guard `Valid`; cache coherence and '
             'the transmission clause hold for every history; the per-link decomposition (received rows = sum over '
             'transmitters of block row times data) additionally needs the additive monoid laws and a rectangular '
-            'channel matrix.',
+            'channel matrix. Robustness classes: R4 (a call that raises changes nothing: init_from_channel_matrix, '
+            'randomize, set_pathloss, noise_var, index errors) is a THEOREM on the model (rejected_call_changes_'
+            'nothing, bad_init_rejected, bad_pathloss_rejected) and is tied by correspondence (rejected calls with '
+            'arguments that differ from the current configuration in the middle of histories, every observable read '
+            'afterwards); rejected corrupt_data calls are oracle-only. R1 (dtypes, python / numpy scalars, lists), '
+            'R2 (memory layout, zero symbols), R3 (inputs untouched, outputs fresh / read-only, no aliasing) and R6 '
+            '(scale) hold on the model BY CONSTRUCTION - its functions take logical values and return fresh values, '
+            'the scalar type is arbitrary - and are checked on the code by correspondence (typed / strided / '
+            'scribbled / scaled histories give the model\'s answer for the logical values) and by the oracle. R5 '
+            '(path loss 0, noise variance 0.0 after a positive one, K = 1, one antenna, zero symbols, first / last '
+            'index) is inside the quantifier of every theorem and generated on purpose. R7: observers K/Nr/Nt, '
+            'pathloss, W/big_W, noise_var, last_noise, corrupt_concatenated_data, get_Hk_with_ext_int, '
+            'set_pathloss() and mutators before the first init are modelled (observers_return_current); the '
+            'fresh-twin comparison (object after a history == new object with the current configuration) and '
+            'objects shared between users are oracle-only (the reads-change-nothing theorem is the model side).',
 }
 
 PL_VALUES = [Fraction(1), Fraction(1, 4), Fraction(1, 16), Fraction(1, 64), Fraction(4), Fraction(9, 16),
@@ -152,111 +166,271 @@ def objarr(ms):
 
 
 # ------------------------------------------------------------------ generator
-def gint(rng, r, c, lo=-3, hi=3):
-    return [[[str(rng.randint(lo, hi)), str(rng.randint(lo, hi))] for _ in range(c)] for _ in range(r)]
+INT_DT = ['int8', 'int16', 'int32', 'int64']
+REALF_DT = ['float16', 'float32', 'float64']
+LAYOUTS = ['C', 'C', 'F', 'T', 'strided', 'neg']
 
 
-def gfloat(rng, r, c):
-    return [[[repr(rng.gauss()), repr(rng.gauss())] for _ in range(c)] for _ in range(r)]
+def scal(q, e):
+    """q * 2**e as an exact fraction string"""
+    return str(Fraction(q) * (Fraction(2) ** e))
+
+
+def gint(rng, r, c, lo=-3, hi=3, real=False, e=0):
+    return [[[scal(rng.randint(lo, hi), e), '0' if real else scal(rng.randint(lo, hi), e)] for _ in range(c)]
+            for _ in range(r)]
+
+
+def gfloat(rng, r, c, s=1.0):
+    return [[[repr(rng.gauss() * s), repr(rng.gauss() * s)] for _ in range(c)] for _ in range(r)]
 
 
 class Gen:
-    """Seeded generator of well-shaped histories (tracks the layout so that every
-    argument has the documented shape)."""
+    """Seeded generator of histories whose accepted operations have the documented shapes (it tracks the
+    layout), interleaved with rejected calls, typed / strided arguments, scribbling on inputs and outputs,
+    boundary values and scaled inputs.
 
-    def __init__(self, rng, ext, exact=True, cfg=CFG, kmax=4, amax=3, malformed=True):
-        self.rng, self.ext, self.exact, self.cfg = rng, ext, exact, cfg
-        self.kmax, self.amax, self.malformed = kmax, amax, malformed
+    mode: 'plain' | 'typed' (R1/R2: narrow dtypes, python scalars/lists, non-contiguous views)
+          | 'scaled' (R6: every input times a power of two / ten) ; stream 'exact' | 'float'"""
+
+    def __init__(self, rng, ext, exact=True, mode='plain', kmax=4, amax=3):
+        self.rng, self.ext, self.exact, self.mode = rng, ext, exact, mode
+        self.kmax, self.amax = kmax, amax
         self.K = 0
         self.nr, self.nt, self.ntE = [], [], []
-        self.pl_set = False
         self.w_ok = True       # the stored filter (or None) fits the layout
         self.w_none = True
+        self.nv_pos = False    # a positive noise variance was used in a transmission
         self.ops = []
+        if mode == 'scaled':
+            if exact:
+                self.ea, self.eb, self.ec = [rng.randint(-40, 40) for _ in range(3)]
+                self.ed = rng.randint(-8, 8)   # path loss may be absent: keep signal and noise within 53 bits
+            else:
+                self.ea, self.eb, self.ec, self.ed = [rng.randint(-12, 12) for _ in range(4)]
+        else:
+            self.ea = self.eb = self.ec = self.ed = 0
 
-    def rmat(self, r, c):
-        return gint(self.rng, r, c) if self.exact else gfloat(self.rng, r, c)
+    # ---- values
+    def mat(self, r, c, e, real=False):
+        if self.exact:
+            return gint(self.rng, r, c, real=real, e=e)
+        return gfloat(self.rng, r, c, 10.0 ** e)
 
-    def layout(self):
+    def fmt(self, real, allow_list=False, const=False):
+        """dtype / memory layout of an array argument (R1, R2)"""
         rng = self.rng
-        keepK = self.K > 0 and rng.chance(0.6)
+        f = {'dt': None, 'lay': 'C'}
+        if self.mode == 'typed' or rng.chance(0.15):
+            f['lay'] = rng.choice(LAYOUTS + (['list'] if allow_list else []) + (['bcast'] if const else []))
+        if self.mode == 'typed' and self.exact:
+            if real:
+                f['dt'] = rng.choice(INT_DT + REALF_DT + ['complex64', None])
+            else:
+                f['dt'] = rng.choice(['complex64', None])
+        return f
+
+    def pl_fmt(self, vals):
+        rng = self.rng
+        f = {'dt': None, 'lay': 'C'}
+        flat = [Fraction(x) for row in vals for x in row]
+        const = len(set(flat)) == 1 and len(flat) > 0
+        if self.mode == 'typed' or rng.chance(0.15):
+            f['lay'] = rng.choice(LAYOUTS + (['bcast'] if const else []))
+        if self.mode == 'typed' and self.exact:
+            pool = REALF_DT + [None]
+            if all(x.denominator == 1 for x in flat):
+                pool = pool + INT_DT + ['uint8']
+            f['dt'] = rng.choice(pool)
+        return f
+
+    def nfmt(self, uniform):
+        """how Nr / Nt are passed"""
+        if self.mode != 'typed':
+            return 'pyint' if (uniform and self.rng.chance(0.3)) else 'array'
+        pool = ['array', 'int8', 'uint8', 'int16', 'int32', 'list', 'tuple']
+        if uniform:
+            pool += ['pyint', 'pyint', 'npint', 'npint']
+        return self.rng.choice(pool)
+
+    # ---- layouts
+    def layout(self, keepK=None):
+        rng = self.rng
+        if keepK is None:
+            keepK = self.K > 0 and rng.chance(0.6)
         K = self.K if keepK else rng.randint(1, self.kmax)
         if rng.chance(0.25):
-            a = rng.randint(1, self.amax)
-            nr = [a] * K
-            b = rng.randint(1, self.amax)
-            nt = [b] * K
+            nr = [rng.randint(1, self.amax)] * K
+            nt = [rng.randint(1, self.amax)] * K
         else:
             nr = [rng.randint(1, self.amax) for _ in range(K)]
             nt = [rng.randint(1, self.amax) for _ in range(K)]
         ntE = [rng.randint(1, 2) for _ in range(rng.randint(1, 2))] if self.ext else []
-        if self.cfg == 'orig' and self.pl_set and self.K > 0:
-            # the design-round code has no defined behaviour when the shape changes under a path loss:
-            # keep the number of users and the total sizes (the stale expansion is then observable)
-            K = self.K
-            ntE = list(self.ntE)
-            nr = self._same_sum(self.nr)
-            nt = self._same_sum(self.nt)
         return K, nr, nt, ntE
 
-    def _same_sum(self, ns):
-        ns = list(ns)
-        for _ in range(3):
-            i, j = self.rng.below(len(ns)), self.rng.below(len(ns))
-            if i != j and ns[i] > 1:
-                ns[i] -= 1
-                ns[j] += 1
-        return ns
+    def init_op(self, kind, K, nr, nt, ntE):
+        rng = self.rng
+        un_r, un_t = len(set(nr)) == 1, len(set(nt)) == 1
+        op = {'op': kind, 'nr': nr, 'nt': nt, 'K': K, 'ntE': ntE,
+              'nrf': self.nfmt(un_r), 'ntf': self.nfmt(un_t),
+              'kf': rng.choice(['py', 'np.int16', 'np.int64']) if self.mode == 'typed' else 'py',
+              'ntef': (rng.choice(['array', 'list', 'pyint', 'npint'] if len(ntE) == 1 else ['array', 'list'])
+                       if self.ext else 'array')}
+        if self.ext and kind == 'init':
+            # the ExtInt override hstacks Nr/Nt with the interference counts: scalars are not accepted there
+            if op['nrf'] in ('pyint', 'npint'):
+                op['nrf'] = 'array'
+            if op['ntf'] in ('pyint', 'npint'):
+                op['ntf'] = 'array'
+        if kind == 'init':
+            real = self.mode == 'typed' and rng.chance(0.5)
+            op['M'] = self.mat(sum(nr), sum(nt) + sum(ntE), self.ea, real=real)
+            op['fM'] = self.fmt(real)
+            op['scr'] = rng.chance(0.3)
+        else:
+            op['seed'] = rng.below(1 << 31)
+        return op
 
     def op_init(self, kind=None):
         rng = self.rng
         K, nr, nt, ntE = self.layout()
         kind = kind or ('init' if rng.chance(0.6) else 'rand')
-        uniform = len(set(nr)) == 1 and len(set(nt)) == 1
-        op = {'op': kind, 'nr': nr, 'nt': nt, 'K': K, 'ntE': ntE,
-              'ints': bool(uniform and rng.chance(0.5) and (kind == 'rand' or not self.ext)),
-              'nte_int': bool(self.ext and len(ntE) == 1 and rng.chance(0.5))}
-        if kind == 'init':
-            op['M'] = self.rmat(sum(nr), sum(nt) + sum(ntE))
-        else:
-            op['seed'] = rng.below(1 << 31)
-        self.ops.append(op)
+        if self.mode == 'scaled' and self.exact:
+            kind = 'init'     # the integer RNG is not scaled: signal and noise would not fit 53 bits together
+        self.ops.append(self.init_op(kind, K, nr, nt, ntE))
         if (nr, nt, K, ntE) != (self.nr, self.nt, self.K, self.ntE):
-            if (K, len(ntE)) != (self.K, len(self.ntE)):
-                self.pl_set = False
             self.w_ok = self.w_none
         self.K, self.nr, self.nt, self.ntE = K, nr, nt, ntE
 
+    # ---- rejected calls (R4): arguments differ from the current configuration
     def op_bad_init(self):
-        """shape mismatch: rejected with ValueError before anything is stored"""
-        K, nr, nt, ntE = self.K, self.nr, self.nt, self.ntE
-        M = self.rmat(sum(nr) + 1, sum(nt) + sum(ntE))
-        self.ops.append({'op': 'init', 'nr': nr, 'nt': nt, 'K': K, 'ntE': ntE, 'M': M, 'ints': False,
-                         'nte_int': False, 'expect': 'ValueError'})
+        rng = self.rng
+        K, nr, nt, ntE = self.layout(keepK=rng.chance(0.3))
+        if rng.chance(0.5):
+            op = self.init_op('init', K, nr, nt, ntE)
+            op['M'] = self.mat(sum(nr) + 1, sum(nt) + sum(ntE), self.ea)     # one row too many
+            op['fM'] = {'dt': None, 'lay': op['fM']['lay']}
+        else:
+            op = self.init_op('init', K, nr, nt, ntE)
+            op['K'] = K + 1                                                  # K does not match len(Nr)
+            op['nrf'] = op['ntf'] = 'array'
+        op['expect'] = 'ValueError'
+        op['scr'] = False
+        self.ops.append(op)
+        self.burst()
 
+    def op_bad_rand(self):
+        rng = self.rng
+        K, nr, nt, ntE = self.layout(keepK=rng.chance(0.3))
+        op = self.init_op('rand', K, nr, nt, ntE)
+        if rng.chance(0.5):
+            op['nt'] = nt + [1]
+        else:
+            op['nr'] = nr + [2]
+        op['nrf'] = op['ntf'] = 'array'
+        op['expect'] = 'ValueError'
+        self.ops.append(op)
+        self.burst()
+
+    def op_bad_setpl(self):
+        rng = self.rng
+        K, E = self.K, len(self.ntE)
+        one = scal(1, 2 * self.ed) if self.exact else repr(10.0 ** self.ed)
+        kind = rng.choice(['rows', 'cols'] + (['ext-rows'] if self.ext else []))
+        if kind == 'rows':          # a row too few
+            p = [[one] * K for _ in range(K - 1)]
+            pe = [[one] * E for _ in range(K - 1)]
+            exp = 'IndexError'
+        elif kind == 'cols':        # a column too few
+            p = [[one] * (K - 1) for _ in range(K)]
+            pe = [[one] * E for _ in range(K)]
+            exp = 'IndexError'
+        else:                       # interference path loss with another number of rows
+            p = [[one] * K for _ in range(K)]
+            pe = [[one] * E for _ in range(K + 1)]
+            exp = 'ValueError'
+        self.ops.append({'op': 'setpl', 'p': p, 'pe': pe if self.ext else None, 'expect': exp,
+                         'fp': {'dt': None, 'lay': 'C'}})
+        self.burst()
+
+    def op_bad_corrupt(self):
+        rng = self.rng
+        ns = rng.randint(1, 2)
+        if rng.chance(0.5) or not self.w_ok:
+            if not self.w_ok:
+                self.op_setw()
+            nt = list(self.nt)
+            nt[rng.below(len(nt))] += 1                      # one data block with a row too many
+            x = [self.mat(n, ns, self.eb) for n in nt]
+            xe = [self.mat(n, ns, self.eb) for n in self.ntE]
+            self.ops.append({'op': 'corrupt', 'x': x, 'xe': xe, 'nseed': rng.below(1 << 31), 'expect': 'ValueError',
+                             'oracle_only': True})
+            self.ops.append({'op': 'ln'})
+        else:
+            w = [self.mat(n + 1, 1, self.ec) for n in self.nr]  # filters with a row too many: accepted by the setter
+            self.ops.append({'op': 'setw', 'w': w, 'as_list': True, 'badrows': True})
+            x = [self.mat(n, ns, self.eb) for n in self.nt]
+            xe = [self.mat(n, ns, self.eb) for n in self.ntE]
+            self.ops.append({'op': 'corrupt', 'x': x, 'xe': xe, 'nseed': rng.below(1 << 31), 'expect': 'ValueError',
+                             'oracle_only': True})
+            self.ops.append({'op': 'ln'})
+            self.op_setw()
+        self.burst(short=True)
+
+    def burst(self, short=False):
+        """read everything observable (after a rejected call: nothing may have changed)"""
+        views = ['layout', 'bigH', 'H', 'pl', 'nv', 'ln', 'bigW']
+        if self.ext:
+            views += ['bigHne', 'Hne']
+        if short:
+            views = ['layout', 'bigH', 'ln']
+        for v in views:
+            self.ops.append({'op': v})
+        for k in range(self.K):
+            self.ops.append({'op': 'Hk', 'k': k, 'kf': 'py'})
+        if self.w_ok and not short:
+            self.op_corrupt()
+
+    # ---- accepted mutators
     def op_setpl(self):
         rng = self.rng
         if rng.chance(0.2):
             self.ops.append({'op': 'setpl', 'p': None, 'pe': None, 'noarg': rng.chance(0.5)})
-            self.pl_set = False
             return
         K, E = self.K, len(self.ntE)
         if self.exact:
-            p = [[str(rng.choice(PL_VALUES)) for _ in range(K)] for _ in range(K)]
-            pe = [[str(rng.choice(PL_VALUES)) for _ in range(E)] for _ in range(K)]
+            pool = PL_VALUES if self.mode != 'typed' else [Fraction(1), Fraction(1, 4), Fraction(4), Fraction(1, 16),
+                                                           Fraction(9, 16), Fraction(0), Fraction(1), Fraction(4)]
+            if rng.chance(0.15):
+                pool = [rng.choice(pool)]                    # constant matrix (broadcast views)
+            p = [[scal(rng.choice(pool), 2 * self.ed) for _ in range(K)] for _ in range(K)]
+            pe = [[scal(rng.choice(pool), 2 * self.ed) for _ in range(E)] for _ in range(K)]
         else:
-            p = [[repr(rng.uniform(0.01, 2.0)) for _ in range(K)] for _ in range(K)]
-            pe = [[repr(rng.uniform(0.01, 2.0)) for _ in range(E)] for _ in range(K)]
-        self.ops.append({'op': 'setpl', 'p': p, 'pe': pe if self.ext else None})
-        self.pl_set = True
+            s = 10.0 ** (2 * self.ed)
+            p = [[repr(rng.uniform(0.01, 2.0) * s) for _ in range(K)] for _ in range(K)]
+            pe = [[repr(rng.uniform(0.01, 2.0) * s) for _ in range(E)] for _ in range(K)]
+        self.ops.append({'op': 'setpl', 'p': p, 'pe': pe if self.ext else None, 'fp': self.pl_fmt(p),
+                         'fpe': self.pl_fmt(pe) if self.ext else None, 'scr': rng.chance(0.3)})
 
     def op_noise(self):
         rng = self.rng
-        if self.malformed and rng.chance(0.08):
-            self.ops.append({'op': 'noise', 'v': '-1', 'expect': 'AssertionError'})
+        if rng.chance(0.08):
+            self.ops.append({'op': 'noise', 'v': '-1', 'expect': 'AssertionError', 'vf': 'float'})
+            self.ops.append({'op': 'nv'})
             return
-        v = rng.choice(NV_VALUES) if self.exact else rng.choice([None, 0.0, 0.5, 1.0, 2.5])
-        self.ops.append({'op': 'noise', 'v': None if v is None else (str(v) if self.exact else repr(v))})
+        e = self.ea + self.eb + self.ed
+        if self.exact:
+            v = rng.choice(NV_VALUES)
+            if self.nv_pos and rng.chance(0.3):
+                v = Fraction(0)                              # exactly 0.0 after a positive variance (R5)
+            vs = None if v is None else scal(v, 2 * e)
+        else:
+            v = rng.choice([None, 0.0, 0.5, 1.0, 2.5])
+            vs = None if v is None else repr(v * 100.0 ** e)
+        vf = 'float'
+        if self.mode == 'typed' and v is not None and self.exact:
+            vf = rng.choice(['float', 'np.float32', 'np.float16'] + (['int', 'np.int8'] if v.denominator == 1 else []))
+        self.ops.append({'op': 'noise', 'v': vs, 'vf': vf})
 
     def op_setw(self):
         rng = self.rng
@@ -264,55 +438,87 @@ class Gen:
             self.ops.append({'op': 'setw', 'w': None})
             self.w_none = True
         else:
-            w = [self.rmat(n, rng.randint(1, n)) for n in self.nr]
-            self.ops.append({'op': 'setw', 'w': w, 'as_list': rng.chance(0.5)})
+            real = self.mode == 'typed' and rng.chance(0.5)
+            w = [self.mat(n, rng.randint(1, n), self.ec, real=real) for n in self.nr]
+            self.ops.append({'op': 'setw', 'w': w, 'as_list': rng.chance(0.5), 'fw': self.fmt(real, allow_list=True),
+                             'scr': rng.chance(0.3)})
             self.w_none = False
         self.w_ok = True
 
     def op_read(self, view=None):
         rng = self.rng
-        view = view or rng.choice(READS_EXT if self.ext else READS_PLAIN)
+        pool = ['H', 'bigH', 'Hkl', 'Hk', 'layout', 'pl', 'bigW', 'nv', 'ln']
+        if self.ext:
+            pool += ['bigHne', 'Hkne', 'Hne', 'Hk']
+        view = view or rng.choice(pool)
         op = {'op': view}
         Kt = self.K + len(self.ntE)
+        idxf = rng.choice(['py', 'np.int8', 'np.int64']) if self.mode == 'typed' else 'py'
         if view == 'Hkl':
-            if self.malformed and rng.chance(0.04):
+            if rng.chance(0.04):
                 op.update(k=self.K, l=0, expect='IndexError')
             else:
-                op.update(k=rng.below(self.K), l=rng.below(Kt))
+                op.update(k=rng.choice([0, self.K - 1, rng.below(self.K)]), l=rng.choice([0, Kt - 1, rng.below(Kt)]))
+            op['kf'] = idxf
         elif view in ('Hk', 'Hkne'):
-            if self.malformed and rng.chance(0.04):
+            if rng.chance(0.04):
                 op.update(k=self.K, expect='IndexError')
             else:
-                op.update(k=rng.below(self.K))
+                op.update(k=rng.choice([0, self.K - 1, rng.below(self.K)]))
+            op['kf'] = idxf
+            if view == 'Hk' and self.ext and rng.chance(0.3):
+                op['alt'] = True                             # get_Hk_with_ext_int
+        if view in ('H', 'bigH', 'Hkl', 'Hk', 'bigHne', 'Hkne', 'Hne', 'pl', 'bigW', 'ln'):
+            op['scr'] = rng.chance(0.3)
         self.ops.append(op)
 
     def op_corrupt(self):
         rng = self.rng
         if not self.w_ok:
             self.op_setw()
-        ns = rng.randint(1, 3)
-        x = [self.rmat(n, ns) for n in self.nt]
-        xe = [self.rmat(n, ns) for n in self.ntE]
-        self.ops.append({'op': 'corrupt', 'x': x, 'xe': xe, 'nseed': rng.below(1 << 31)})
+        ns = rng.choice([1, 1, 2, 3, 0]) if rng.chance(0.5) else rng.randint(1, 3)
+        real = self.mode == 'typed' and rng.chance(0.5)
+        x = [self.mat(n, ns, self.eb, real=real) for n in self.nt]
+        xe = [self.mat(n, ns, self.eb, real=real) for n in self.ntE]
+        kind = 'corruptc' if rng.chance(0.25) else 'corrupt'
+        self.ops.append({'op': kind, 'x': x, 'xe': xe, 'nseed': rng.below(1 << 31), 'ns': ns,
+                         'fx': self.fmt(real, allow_list=(kind == 'corrupt')), 'scr': rng.chance(0.3)})
+        last_nv = [o for o in self.ops if o['op'] == 'noise' and not o.get('expect')]
+        if last_nv and last_nv[-1]['v'] is not None and Fraction(last_nv[-1]['v']) > 0:
+            self.nv_pos = True
 
     def history(self, length):
         rng = self.rng
+        if rng.chance(0.2):          # mutators on the fresh object, before any channel exists (R7)
+            for _ in range(rng.randint(1, 3)):
+                u = rng.uniform()
+                if u < 0.4:
+                    self.op_noise()
+                elif u < 0.7:
+                    self.ops.append({'op': 'setw', 'w': None})
+                else:
+                    self.ops.append({'op': 'setpl', 'p': None, 'pe': None, 'noarg': rng.chance(0.5)})
+            self.ops = [dict(o, pre=True) for o in self.ops]
         self.op_init()
         while len(self.ops) < length:
             u = rng.uniform()
-            if u < 0.13:
+            if u < 0.11:
                 self.op_init()
-            elif u < 0.15 and self.malformed:
+            elif u < 0.135:
                 self.op_bad_init()
-                if self.ext:     # the ExtInt override stores _extIntK before the check: re-establish the layout
-                    self.op_init()
-            elif u < 0.35:
+            elif u < 0.155:
+                self.op_bad_rand()
+            elif u < 0.175:
+                self.op_bad_setpl()
+            elif u < 0.19:
+                self.op_bad_corrupt()
+            elif u < 0.37:
                 self.op_setpl()
-            elif u < 0.42:
+            elif u < 0.45:
                 self.op_noise()
-            elif u < 0.49:
+            elif u < 0.52:
                 self.op_setw()
-            elif u < 0.62:
+            elif u < 0.66:
                 self.op_corrupt()
             else:
                 for _ in range(rng.randint(1, 3)):
@@ -341,73 +547,227 @@ def patched_randn(active):
         mu.randn_c_RS = old
 
 
-def run_impl(case):
-    """Execute a history on the real class.  Returns one record per op:
-    {'out': value | None, 'exc': name | None, 'raw': matrix after init/rand, 'noise': last_noise after corrupt}"""
+def unjr(m, ncols):
+    """real matrix from JSON, keeping the number of columns for zero rows"""
+    if not m:
+        return np.zeros((0, ncols), dtype=float)
+    return np.array([[float(Fraction(x)) for x in row] for row in m], dtype=float).reshape(len(m), -1)
+
+
+class Arg:
+    """an array handed to the code under test: the object passed, the buffer it lives in, a snapshot"""
+
+    def __init__(self, label, canon, fmt):
+        fmt = fmt or {}
+        dt, lay = fmt.get('dt'), fmt.get('lay', 'C')
+        b = np.array(canon)
+        if dt is not None:
+            if np.dtype(dt).kind in 'iuf' and np.iscomplexobj(b):
+                if np.any(b.imag != 0):
+                    raise core.Infra('generator: complex values for real dtype %s' % dt)
+                b = b.real
+            b = b.astype(dt)
+            if not np.array_equal(b, canon):
+                raise core.Infra('generator: value not representable in %s' % dt)
+        self.base = None
+        if b.ndim == 2 and lay == 'F':
+            b = np.asfortranarray(b)
+        elif b.ndim == 2 and lay == 'T':
+            b = np.ascontiguousarray(b.T).T
+        elif b.ndim == 2 and lay == 'strided':
+            self.base = np.zeros((2 * b.shape[0] + 1, 2 * b.shape[1] + 1), dtype=b.dtype)
+            self.base[1::2, 1::2] = b
+            b = self.base[1::2, 1::2]
+        elif b.ndim == 2 and lay == 'neg':
+            self.base = np.ascontiguousarray(b[::-1, ::-1])
+            b = self.base[::-1, ::-1]
+        elif lay == 'bcast' and b.size > 0 and np.all(b == b.flat[0]):
+            b = np.broadcast_to(np.array(b.flat[0]), b.shape)
+        elif lay == 'list':
+            b = b.tolist()
+        self.label, self.obj = label, b
+        self.snap = np.array(np.asarray(b))
+        self.writeable = b.flags.writeable if isinstance(b, np.ndarray) else None
+
+    def problems(self):
+        out = []
+        cur = np.asarray(self.obj)
+        if cur.shape != self.snap.shape or not np.array_equal(cur, self.snap):
+            out.append('input-modified:' + self.label)
+        if isinstance(self.obj, np.ndarray) and self.obj.flags.writeable != self.writeable:
+            out.append('input-flag-changed:' + self.label)
+        return out
+
+    def scribble(self):
+        """the caller reuses its buffer after the call"""
+        if self.base is not None and self.base.flags.writeable:
+            self.base[...] = 77
+        elif isinstance(self.obj, np.ndarray):
+            if self.obj.flags.writeable:
+                self.obj[...] = 77
+        elif isinstance(self.obj, list):
+            for row in self.obj:
+                for j in range(len(row)):
+                    row[j] = 77
+        self.snap = np.array(np.asarray(self.obj))
+
+
+def nvec(vals, f):
+    if f == 'pyint':
+        return int(vals[0])
+    if f == 'npint':
+        return np.int64(vals[0])
+    if f == 'list':
+        return [int(v) for v in vals]
+    if f == 'tuple':
+        return tuple(int(v) for v in vals)
+    return np.array(vals, dtype=int if f == 'array' else f)
+
+
+def scalar(v, f):
+    return {'py': int, 'np.int8': np.int8, 'np.int16': np.int16, 'np.int64': np.int64}[f or 'py'](v)
+
+
+def arrays_of(o):
+    if isinstance(o, np.ndarray) and o.dtype == object:
+        return [o[idx] for idx in np.ndindex(o.shape) if isinstance(o[idx], np.ndarray)]
+    if isinstance(o, np.ndarray):
+        return [o]
+    if isinstance(o, (list, tuple)):
+        return [x for x in o if isinstance(x, np.ndarray)]
+    return []
+
+
+def deep(o):
+    if isinstance(o, np.ndarray) and o.dtype == object:
+        c = np.empty(o.shape, dtype=object)
+        for idx in np.ndindex(o.shape):
+            c[idx] = np.array(o[idx])
+        return c
+    if isinstance(o, np.ndarray):
+        return np.array(o)
+    if isinstance(o, (list, tuple)):
+        return [np.array(x) for x in o]
+    return o
+
+
+def run_impl(case, want_obj=False):
+    """Execute a history on the real class.  One record per op: {'out', 'exc', 'raw', 'noise', 'r3': [...]}"""
     mu = _impl()
     exact = case.get('stream', 'exact') == 'exact'
     ext = case['cls'] == 'ext'
     recs = []
+    inputs = []        # Arg objects of the recent calls (R3: must stay what the caller made them)
+    outputs = []       # (label, arrays returned, their values at return time)
     with patched_randn(exact):
         ch = mu.MultiUserChannelMatrixExtInt() if ext else mu.MultiUserChannelMatrix()
         for op in case['ops']:
-            rec = {'out': None, 'exc': None}
+            rec = {'out': None, 'exc': None, 'r3': []}
             kind = op['op']
+            args = []
             try:
                 if kind in ('init', 'rand'):
                     nr, nt, K, ntE = op['nr'], op['nt'], op['K'], op['ntE']
-                    Nr = int(nr[0]) if op.get('ints') else np.array(nr, dtype=int)
-                    Nt = int(nt[0]) if op.get('ints') else np.array(nt, dtype=int)
-                    NtE = int(ntE[0]) if op.get('nte_int') else np.array(ntE, dtype=int)
+                    Nr, Nt = nvec(nr, op.get('nrf', 'array')), nvec(nt, op.get('ntf', 'array'))
+                    NtE = nvec(ntE, op.get('ntef', 'array')) if ext else None
+                    Kv = scalar(K, op.get('kf', 'py'))
                     if kind == 'init':
-                        M = unj(op['M'], sum(nt) + sum(ntE))
+                        a = Arg('channel_matrix', unj(op['M'], sum(nt) + sum(ntE)), op.get('fM'))
+                        args.append(a)
                         if ext:
-                            ch.init_from_channel_matrix(M, Nr, Nt, K, NtE)
+                            ch.init_from_channel_matrix(a.obj, Nr, Nt, Kv, NtE)
                         else:
-                            ch.init_from_channel_matrix(M, Nr, Nt, K)
+                            ch.init_from_channel_matrix(a.obj, Nr, Nt, Kv)
                     else:
                         ch.set_channel_seed(op['seed'])
                         if ext:
-                            ch.randomize(Nr, Nt, K, NtE)
+                            ch.randomize(Nr, Nt, Kv, NtE)
                         else:
-                            ch.randomize(Nr, Nt, K)
+                            ch.randomize(Nr, Nt, Kv)
                     rec['raw'] = np.array(ch._big_H_no_pathloss)
                 elif kind == 'setpl':
                     if op['p'] is None:
-                        ch.set_pathloss(None) if not op.get('noarg') else ch.set_pathloss()
-                    elif ext:
-                        ch.set_pathloss(unjreal(op['p']), unjreal(op['pe']).reshape(len(op['p']), -1))
+                        if ext and not op.get('noarg'):
+                            ch.set_pathloss(None, None)
+                        elif op.get('noarg'):
+                            ch.set_pathloss()
+                        else:
+                            ch.set_pathloss(None)
                     else:
-                        ch.set_pathloss(unjreal(op['p']))
+                        ncol = len(op['p'][0]) if op['p'] else 0
+                        a = Arg('pathloss_matrix', unjr(op['p'], ncol), op.get('fp'))
+                        args.append(a)
+                        if ext:
+                            ne = len(op['pe'][0]) if op['pe'] else 0
+                            b = Arg('ext_int_pathloss', unjr(op['pe'], ne), op.get('fpe'))
+                            args.append(b)
+                            ch.set_pathloss(a.obj, b.obj)
+                        else:
+                            ch.set_pathloss(a.obj)
                 elif kind == 'noise':
-                    ch.noise_var = None if op['v'] is None else float(Fraction(op['v']))
+                    if op['v'] is None:
+                        ch.noise_var = None
+                    else:
+                        v = float(Fraction(op['v']))
+                        vf = op.get('vf', 'float')
+                        ch.noise_var = {'float': float, 'int': int, 'np.float32': np.float32,
+                                        'np.float16': np.float16, 'np.int8': np.int8}[vf](v)
                 elif kind == 'setw':
                     if op['w'] is None:
                         ch.set_post_filter(None)
                     else:
-                        ws = [unj(w) for w in op['w']]
-                        ch.set_post_filter(ws if op.get('as_list') else objarr(ws))
+                        ws = [Arg('filter%d' % i, unj(w), op.get('fw')) for i, w in enumerate(op['w'])]
+                        args += ws
+                        objs = [w.obj for w in ws]
+                        ch.set_post_filter(objs if (op.get('as_list') or any(isinstance(o, list) for o in objs))
+                                           else objarr(objs))
                 elif kind == 'H':
                     rec['out'] = ch.H
                 elif kind == 'bigH':
                     rec['out'] = ch.big_H
                 elif kind == 'Hkl':
-                    rec['out'] = ch.get_Hkl(op['k'], op['l'])
+                    rec['out'] = ch.get_Hkl(scalar(op['k'], op.get('kf')), scalar(op['l'], op.get('kf')))
                 elif kind == 'Hk':
-                    rec['out'] = ch.get_Hk(op['k'])
+                    k = scalar(op['k'], op.get('kf'))
+                    rec['out'] = ch.get_Hk_with_ext_int(k) if op.get('alt') else ch.get_Hk(k)
                 elif kind == 'bigHne':
                     rec['out'] = ch.big_H_no_ext_int
                 elif kind == 'Hkne':
-                    rec['out'] = ch.get_Hk_without_ext_int(op['k'])
+                    rec['out'] = ch.get_Hk_without_ext_int(scalar(op['k'], op.get('kf')))
                 elif kind == 'Hne':
                     rec['out'] = ch.H_no_ext_int
-                elif kind == 'corrupt':
+                elif kind == 'layout':
+                    rec['out'] = ('layout', int(ch.K), [int(v) for v in np.atleast_1d(ch.Nr)],
+                                  [int(v) for v in np.atleast_1d(ch.Nt)],
+                                  [int(v) for v in np.atleast_1d(ch.extIntNt)] if ext else [],
+                                  int(ch.extIntK) if ext else 0)
+                elif kind == 'pl':
+                    rec['out'] = ('opt', ch.pathloss)
+                elif kind == 'bigW':
+                    bw = ch.big_W
+                    w = ch.W
+                    rec['out'] = ('opt', bw)
+                    rec['W'] = None if w is None else [np.array(x) for x in w]
+                elif kind == 'nv':
+                    rec['out'] = ('sc', ch.noise_var)
+                elif kind == 'ln':
+                    rec['out'] = ('opt', ch.last_noise)
+                elif kind in ('corrupt', 'corruptc'):
                     ch.set_noise_seed(op['nseed'])
-                    x = objarr([unj(m) for m in op['x']])
-                    if ext:
-                        rec['out'] = ch.corrupt_data(x, objarr([unj(m) for m in op['xe']]))
+                    ns = op.get('ns')
+                    xs = [Arg('data%d' % i, unj(m) if ns is None else unj(m).reshape(len(m), ns), op.get('fx'))
+                          for i, m in enumerate(op['x'])]
+                    xes = [Arg('ext_data%d' % i, unj(m) if ns is None else unj(m).reshape(len(m), ns), op.get('fx'))
+                           for i, m in enumerate(op['xe'])]
+                    args += xs + xes
+                    if kind == 'corruptc':
+                        big = Arg('data', np.vstack([np.asarray(a.obj) for a in xs + xes]), op.get('fx'))
+                        args = [big]
+                        rec['out'] = ch.corrupt_concatenated_data(big.obj)
+                    elif ext:
+                        rec['out'] = ch.corrupt_data(objarr([a.obj for a in xs]), objarr([a.obj for a in xes]))
                     else:
-                        rec['out'] = ch.corrupt_data(x)
+                        rec['out'] = ch.corrupt_data(objarr([a.obj for a in xs]))
                 else:
                     raise core.Infra('unknown op %r' % kind)
             except core.Infra:
@@ -415,76 +775,153 @@ def run_impl(case):
             except Exception as e:   # noqa: an exception is an observable result of the op
                 rec['exc'] = type(e).__name__
                 rec['msg'] = str(e)[:160]
-            if kind == 'corrupt':
+            if kind in ('corrupt', 'corruptc'):
                 ln = ch.last_noise
                 rec['noise'] = None if ln is None else np.array(ln)
-            if rec['out'] is not None:
-                # detach from the object's memory: later ops must not change what was returned now
-                o = rec['out']
-                if isinstance(o, np.ndarray) and o.dtype == object:
-                    c = np.empty(o.shape, dtype=object)
-                    for idx in np.ndindex(o.shape):
-                        c[idx] = np.array(o[idx])
-                    rec['out'] = c
-                else:
-                    rec['out'] = np.array(o)
+            # ---- R3: inputs stay the caller's, earlier outputs stay what they were
+            o = rec['out']
+            val = o[1] if isinstance(o, tuple) and o[0] in ('opt', 'sc') else o
+            returned = arrays_of(val) if not isinstance(o, tuple) or o[0] == 'opt' else []
+            inputs += args
+            inputs = inputs[-12:]
+            for a in inputs:
+                rec['r3'] += a.problems()
+            for (lab, arrs, vals) in outputs:
+                for x, v in zip(arrs, vals):
+                    if x.shape != v.shape or not np.array_equal(x, v):
+                        rec['r3'].append('earlier-output-changed:' + lab)
+                        break
+            for r in returned:
+                for a in inputs:
+                    tgt = a.base if a.base is not None else a.obj
+                    if isinstance(tgt, np.ndarray) and r.size and tgt.size and np.may_share_memory(r, tgt):
+                        rec['r3'].append('output-aliases-input:' + a.label)
+            rec['r3'] = sorted(set(rec['r3']))
+            for a in inputs:                 # report each once
+                a.snap = np.array(np.asarray(a.obj))
+                if isinstance(a.obj, np.ndarray):
+                    a.writeable = a.obj.flags.writeable
+            # detach the value that is compared from the object's memory
+            if isinstance(o, tuple):
+                rec['out'] = (o[0], deep(o[1])) + tuple(o[2:]) if o[0] in ('opt',) else o
+            elif o is not None:
+                rec['out'] = deep(o)
+            if returned:
+                outputs.append((kind, returned, [np.array(r) for r in returned]))
+                outputs = outputs[-8:]
+            # ---- the caller scribbles on its own buffers / on what it was given
+            if op.get('scr'):
+                for a in args:
+                    a.scribble()
+                for r in returned:
+                    if r.flags.writeable:
+                        try:
+                            r[...] = 55
+                        except (ValueError, TypeError):
+                            pass
+                outputs = [(lab, arrs, [np.array(x) for x in arrs]) for (lab, arrs, _) in outputs]
             recs.append(rec)
-    return recs
+    return (recs, ch) if want_obj else recs
+
+
+# ------------------------------------------------------------------ tokens compared with the model
+def opt_tok(v, as_scalar=False):
+    if v is None:
+        return 'none'
+    if as_scalar:
+        return c_tok(v)
+    v = np.asarray(v)
+    return mat_tok(v if v.ndim == 2 else v.reshape(1, -1))
 
 
 def impl_token(op, rec):
-    if rec['exc']:
-        return 'err:' + rec['exc']
     kind = op['op']
+    r3 = '+R3:' + ','.join(rec['r3']) if rec.get('r3') else ''
+    if rec['exc']:
+        return 'err:' + rec['exc'] + r3
     if kind in MUTATORS:
-        return 'unit'
+        return 'unit' + r3
     o = rec['out']
     if kind in ('H', 'Hne'):
-        return 'mom=' + mom_tok(o)
-    if kind == 'corrupt':
-        return 'rx=' + mats_tok(list(o)) + '@' + ('none' if rec['noise'] is None else mat_tok(rec['noise']))
-    return 'mat=' + mat_tok(o)
+        t = 'mom=' + mom_tok(o)
+    elif kind == 'corrupt':
+        t = 'rx=' + mats_tok(list(o)) + '@' + ('none' if rec['noise'] is None else mat_tok(rec['noise']))
+    elif kind == 'corruptc':
+        t = 'rx=' + mat_tok(o) + '@' + ('none' if rec['noise'] is None else mat_tok(rec['noise']))
+    elif kind == 'layout':
+        t = 'lay=%d;%s;%s;%s' % (o[1], nats_tok(o[2]), nats_tok(o[3]), nats_tok(o[4]))
+        if o[5] != len(o[4]):
+            t += ';extIntK=%d' % o[5]
+    elif kind in ('pl', 'bigW', 'ln'):
+        t = 'opt=' + opt_tok(o[1])
+    elif kind == 'nv':
+        t = 'sc=' + opt_tok(o[1], as_scalar=True)
+    else:
+        t = 'mat=' + mat_tok(o)
+    return t + r3
+
+
+def rows_tok(rows):
+    """real matrix given as rows of fraction strings"""
+    if not rows:
+        return '_'
+    return ';'.join('~' if not row else ','.join(fr_tok(Fraction(x)) for x in row) for row in rows)
+
+
+def jm_tok(m):
+    """complex matrix given as rows of [re, im] fraction strings (exact: no float round trip)"""
+    if not m:
+        return '_'
+    return ';'.join('~' if not row else ','.join(fr_tok(Fraction(a)) + ':' + fr_tok(Fraction(b)) for a, b in row)
+                    for row in m)
 
 
 def model_line(case, recs):
+    """the same history as one request line of the Lean driver; ops marked `oracle_only` (rejections the
+    model has no rule for) are left out: a rejected call is a no-op"""
     toks = ['run', 'cls=' + case['cls'], 'cfg=' + case.get('cfg', CFG)]
-    for op, rec in zip(case['ops'], recs):
+    idx = []
+    for j, (op, rec) in enumerate(zip(case['ops'], recs)):
         kind = op['op']
+        if op.get('oracle_only'):
+            continue
+        idx.append(j)
         if kind in ('init', 'rand'):
             if kind == 'init':
-                M = mat_tok(unj(op['M'], sum(op['nt']) + sum(op['ntE'])))
+                M = jm_tok(op['M'])
             else:
-                M = mat_tok(rec['raw']) if rec.get('raw') is not None else '_'
+                M = mat_tok(rec['raw']) if (rec.get('raw') is not None and not rec['exc']) else '_'
             toks.append('!'.join([kind, M, nats_tok(op['nr']), nats_tok(op['nt']), str(op['K']), nats_tok(op['ntE'])]))
         elif kind == 'setpl':
             if op['p'] is None:
                 toks.append('setpl!none!_')
             else:
-                p = ';'.join(','.join(fr_tok(Fraction(x)) for x in row) for row in op['p'])
-                pe = '_'
-                if op.get('pe') is not None:
-                    pe = ';'.join('~' if not row else ','.join(fr_tok(Fraction(x)) for x in row) for row in op['pe'])
-                toks.append('setpl!%s!%s' % (p, pe))
+                toks.append('setpl!%s!%s' % (rows_tok(op['p']), rows_tok(op['pe']) if op.get('pe') is not None else '_'))
         elif kind == 'noise':
             toks.append('noise!' + ('none' if op['v'] is None else fr_tok(Fraction(op['v']))))
         elif kind == 'setw':
-            toks.append('setw!' + ('none' if op['w'] is None else mats_tok(unj(w) for w in op['w'])))
+            toks.append('setw!' + ('none' if op['w'] is None else '|'.join(jm_tok(w) for w in op['w'])))
         elif kind == 'Hkl':
             toks.append('Hkl!%d!%d' % (op['k'], op['l']))
         elif kind in ('Hk', 'Hkne'):
             toks.append('%s!%d' % (kind, op['k']))
-        elif kind == 'corrupt':
+        elif kind in ('corrupt', 'corruptc'):
             n = rec.get('noise')
-            toks.append('corrupt!%s!%s!%s' % (mats_tok(unj(m) for m in op['x']), mats_tok(unj(m) for m in op['xe']),
-                                              'none' if n is None else mat_tok(n)))
+            ntok = 'none' if n is None else mat_tok(n)
+            if kind == 'corrupt':
+                toks.append('corrupt!%s!%s!%s' % ('|'.join(jm_tok(m) for m in op['x']) or '#',
+                                                  '|'.join(jm_tok(m) for m in op['xe']) or '#', ntok))
+            else:
+                rows = [row for m in (op['x'] + op['xe']) for row in m]
+                toks.append('corruptc!%s!%s' % (jm_tok(rows), ntok))
         else:
             toks.append(kind)
-    return ' '.join(toks)
+    return ' '.join(toks), idx
 
 
 # ------------------------------------------------------------------ first-principles oracle
 class Shadow:
-    """What the property promises, computed from the raw matrix and the LAST arguments only."""
+    """What the property promises, computed from the raw matrix and the LAST accepted arguments only."""
 
     def __init__(self, ext):
         self.ext = ext
@@ -493,6 +930,7 @@ class Shadow:
         self.pl = None
         self.W = None
         self.nv = None
+        self.ln = None
 
     @property
     def ntf(self):
@@ -510,14 +948,25 @@ class Shadow:
         r0, c0 = sum(self.nr[:k]), sum(self.ntf[:l])
         return self.raw[r0:r0 + self.nr[k], c0:c0 + self.ntf[l]] * self.gain(k, l)
 
-    def Hk(self, k, ncols_users_only=False):
-        L = self.K if ncols_users_only else len(self.ntf)
+    def Hk(self, k, users_only=False):
+        L = self.K if users_only else len(self.ntf)
         return np.concatenate([self.Hkl(k, l) for l in range(L)], axis=1)
 
     def bigH(self, users_only=False):
         return np.concatenate([self.Hk(k, users_only) for k in range(self.K)], axis=0)
 
-    def received(self, xs, noise):
+    def bigW(self):
+        if self.W is None:
+            return None
+        R, C = sum(w.shape[0] for w in self.W), sum(w.shape[1] for w in self.W)
+        B = np.zeros((R, C), dtype=complex)
+        r0 = c0 = 0
+        for w in self.W:
+            B[r0:r0 + w.shape[0], c0:c0 + w.shape[1]] = w
+            r0, c0 = r0 + w.shape[0], c0 + w.shape[1]
+        return B
+
+    def received(self, xs, noise, split=True):
         """per receiver: sum over links of gain * H_kl x_l, plus its rows of the noise; then the filters"""
         ys = []
         for k in range(self.K):
@@ -529,132 +978,302 @@ class Shadow:
                 r0 = sum(self.nr[:k])
                 acc = acc + noise[r0:r0 + self.nr[k], :]
             ys.append(acc)
+        stacked = np.concatenate(ys, axis=0)
         if self.W is not None:
-            stacked = np.concatenate(ys, axis=0)
             outs, r0 = [], 0
-            for k, w in enumerate(self.W):
+            for w in self.W:
                 outs.append(w.conj().T @ stacked[r0:r0 + w.shape[0], :])
                 r0 += w.shape[0]
-            filt = np.concatenate(outs, axis=0)
-            ys, r0 = [], 0
-            for k in range(self.K):      # "split per receiver by its antenna count"
-                ys.append(filt[r0:r0 + self.nr[k], :])
-                r0 += self.nr[k]
+            stacked = np.concatenate(outs, axis=0)
+        if not split:
+            return stacked
+        ys, r0 = [], 0
+        for k in range(self.K):      # "split per receiver by its antenna count"
+            ys.append(stacked[r0:r0 + self.nr[k], :])
+            r0 += self.nr[k]
         return ys
 
 
 def same(a, b, exact):
+    """exact stream: equal values; float stream: equal RELATIVE to the scale of the expected value (R6)"""
+    if a is None or b is None:
+        return a is None and b is None
     a, b = np.asarray(a), np.asarray(b)
     if a.shape != b.shape:
         return False
+    if a.dtype == object or b.dtype == object:
+        return False
     if exact:
         return bool(np.array_equal(a, b))
-    return bool(np.allclose(a, b, rtol=1e-9, atol=1e-12))
+    if a.size == 0:
+        return True
+    scale = float(np.max(np.abs(b)))
+    return bool(np.all(np.abs(a - b) <= 1e-9 * scale)) if scale > 0 else bool(np.all(a == 0))
+
+
+def eqv(va, vb, exact):
+    if va is None or vb is None:
+        return va is None and vb is None
+    if isinstance(va, np.ndarray) or isinstance(vb, np.ndarray):
+        return same(va, vb, exact)
+    if isinstance(vb, list):
+        return list(va) == vb
+    return float(va) == float(vb)
+
+
+def op_tags(op, case):
+    """R-classes an operation belongs to (computed from the input)"""
+    t = set()
+    fm = [op.get(k) for k in ('fM', 'fp', 'fpe', 'fw', 'fx') if op.get(k)]
+    if any(f.get('dt') for f in fm) or op.get('nrf', 'array') not in ('array',) or op.get('ntf', 'array') != 'array' \
+            or op.get('kf', 'py') != 'py' or op.get('vf', 'float') != 'float' or op.get('ntef', 'array') != 'array':
+        t.add('R1')
+    if any(f.get('lay', 'C') != 'C' for f in fm):
+        t.add('R2')
+    if op.get('scr'):
+        t.add('R3')
+    if op.get('expect'):
+        t.add('R4')
+    if case.get('mode') == 'scaled':
+        t.add('R6')
+    if op['op'] in ('layout', 'pl', 'bigW', 'nv', 'ln', 'corruptc') or op.get('alt') or op.get('pre') \
+            or op.get('noarg'):
+        t.add('R7')
+    if op['op'] in ('corrupt', 'corruptc') and op.get('ns') == 0:
+        t.add('R5')
+    if op['op'] == 'noise' and op.get('v') is not None and Fraction(op['v']) == 0:
+        t.add('R5')
+    if op['op'] == 'setpl' and op.get('p') and any(Fraction(x) == 0 for row in op['p'] for x in row):
+        t.add('R5')
+    if op['op'] in ('init', 'rand') and op['K'] == 1:
+        t.add('R5')
+    return t
+
+
+CALLS = {'init': 'init_from_channel_matrix', 'rand': 'randomize', 'setpl': 'set_pathloss', 'noise': 'noise_var',
+         'setw': 'set_post_filter', 'H': 'H', 'bigH': 'big_H', 'Hkl': 'get_Hkl', 'Hk': 'get_Hk',
+         'bigHne': 'big_H_no_ext_int', 'Hkne': 'get_Hk_without_ext_int', 'Hne': 'H_no_ext_int',
+         'corrupt': 'corrupt_data', 'corruptc': 'corrupt_concatenated_data', 'layout': 'K/Nr/Nt', 'pl': 'pathloss',
+         'bigW': 'big_W', 'nv': 'noise_var.get', 'ln': 'last_noise'}
+
+
+def observe(ch, ext, sh, exact):
+    """every public observable of an object (used for the fresh-twin comparison, R7)"""
+    obs = {'K': int(ch.K), 'Nr': [int(v) for v in np.atleast_1d(ch.Nr)], 'Nt': [int(v) for v in np.atleast_1d(ch.Nt)],
+           'big_H': np.array(ch.big_H), 'pathloss': None if ch.pathloss is None else np.array(ch.pathloss),
+           'noise_var': ch.noise_var, 'big_W': None if ch.big_W is None else np.array(ch.big_W)}
+    H = ch.H
+    for k in range(sh.K):
+        obs['Hk%d' % k] = np.array(ch.get_Hk(k))
+        for l in range(len(sh.ntf)):
+            obs['H%d,%d' % (k, l)] = np.array(H[k, l])
+            obs['Hkl%d,%d' % (k, l)] = np.array(ch.get_Hkl(k, l))
+    if ext:
+        obs['extIntK'] = int(ch.extIntK)
+        obs['big_H_no_ext_int'] = np.array(ch.big_H_no_ext_int)
+        Hn = ch.H_no_ext_int
+        for k in range(sh.K):
+            for l in range(sh.K):
+                obs['Hne%d,%d' % (k, l)] = np.array(Hn[k, l])
+    w_fits = sh.W is None or [w.shape[0] for w in sh.W] == list(sh.nr)
+    if w_fits and sh.K > 0:
+        xs = [np.ones((n, 2), dtype=complex) * (1 + i) for i, n in enumerate(sh.ntf)]
+        ch.set_noise_seed(12345)
+        if ext:
+            out = ch.corrupt_data(objarr(xs[:sh.K]), objarr(xs[sh.K:]))
+        else:
+            out = ch.corrupt_data(objarr(xs))
+        for k in range(sh.K):
+            obs['rx%d' % k] = np.array(out[k])
+        obs['last_noise'] = None if ch.last_noise is None else np.array(ch.last_noise)
+    return obs
+
+
+def fresh_twin(case, sh):
+    """a new object given the CURRENT configuration by the shortest route"""
+    mu = _impl()
+    ext = case['cls'] == 'ext'
+    tw = mu.MultiUserChannelMatrixExtInt() if ext else mu.MultiUserChannelMatrix()
+    if ext:
+        tw.init_from_channel_matrix(np.array(sh.raw), np.array(sh.nr), np.array(sh.nt), sh.K, np.array(sh.ntE))
+        if sh.pl is not None:
+            tw.set_pathloss(np.array(sh.pl[:, :sh.K]), np.array(sh.pl[:, sh.K:]))
+    else:
+        tw.init_from_channel_matrix(np.array(sh.raw), np.array(sh.nr), np.array(sh.nt), sh.K)
+        if sh.pl is not None:
+            tw.set_pathloss(np.array(sh.pl))
+    if sh.W is not None:
+        tw.set_post_filter([np.array(w) for w in sh.W])
+    tw.noise_var = sh.nv
+    return tw
 
 
 def oracle_history(case):
     """Returns the list of violations [(index, call, class, detail)] of the property on the real code."""
     exact = case.get('stream', 'exact') == 'exact'
     ext = case['cls'] == 'ext'
-    recs = run_impl(case)
-    sh = Shadow(ext)
-    out = []
-    trig_h = 'new'        # latest change of the channel / path loss before a read: 'relayout' | 'setpl'
-    trig_c = 'new'        # same, also counting set_post_filter (for corrupt_data)
-    read_since = {}       # view -> it was read since the last mutation of the channel/path loss
-    cached = set()        # views read at some point before the last mutation
-    for i, (op, rec) in enumerate(zip(case['ops'], recs)):
-        kind = op['op']
-        call = {'init': 'init_from_channel_matrix', 'rand': 'randomize', 'setpl': 'set_pathloss',
-                'noise': 'noise_var', 'setw': 'set_post_filter'}.get(kind) or VIEW_CALL[kind]
-        cls_tag = ('ext' if ext else 'plain')
-        exp_exc = op.get('expect')
-        if rec['exc'] != exp_exc:
-            if rec['exc']:
-                out.append((i, call, 'exception:%s:%s:%s' % (rec['exc'], cls_tag,
-                                                             'pathloss' if sh.pl is not None else 'no-pathloss'),
-                            rec.get('msg', '')))
-            else:
-                out.append((i, call, 'no-exception:%s:%s' % (exp_exc, cls_tag), 'expected ' + exp_exc))
-            continue
-        if exp_exc:
-            continue
-        if kind in ('init', 'rand'):
-            raw = rec['raw']
-            want = (sum(op['nr']), sum(op['nt']) + sum(op['ntE']))
-            if raw.shape != want:
-                out.append((i, call, 'raw-shape:%s' % cls_tag, 'raw %s expected %s' % (raw.shape, want)))
-            if kind == 'init' and not same(raw, unj(op['M'], want[1]), True):
-                out.append((i, call, 'raw-differs:%s' % cls_tag, 'stored matrix is not the argument'))
-            sh.relayout(raw, op['nr'], op['nt'], op['K'], op['ntE'])
-        elif kind == 'setpl':
-            if op['p'] is None:
-                sh.pl = None
-            else:
-                p = unjreal(op['p'])
-                sh.pl = np.hstack([p, unjreal(op['pe']).reshape(len(op['p']), -1)]) if ext else p
-        elif kind == 'noise':
-            sh.nv = None if op['v'] is None else float(Fraction(op['v']))
-        elif kind == 'setw':
-            sh.W = None if op['w'] is None else [unj(w) for w in op['w']]
-        if kind in MUTATORS:
-            if kind in ('init', 'rand', 'setpl'):
-                trig_h = trig_c = 'relayout' if kind in ('init', 'rand') else 'setpl'
-                cached |= {v for v, r in read_since.items() if r}
-                read_since = {}
+    with patched_randn(exact):
+        recs, ch = run_impl(case, want_obj=True)
+        sh = Shadow(ext)
+        out = []
+        trig, trig_c = None, None      # index of the latest change of channel / path loss (and filter)
+        cached = set()
+        read_since = {}
+        cls_tag = 'ext' if ext else 'plain'
+        ops = case['ops']
+
+        def klass(base, i, for_corrupt=False):
+            t = op_tags(ops[i], case)
+            j = trig_c if for_corrupt else trig
+            after = 'new'
+            if j is not None:
+                t |= op_tags(ops[j], case)
+                after = {'init': 'relayout', 'rand': 'relayout'}.get(ops[j]['op'], ops[j]['op'])
+                if ops[j].get('expect'):
+                    after = 'rejected-' + ops[j]['op']
+            return '%s:%s:after-%s%s' % (base, cls_tag, after, ('|' + ','.join(sorted(t))) if t else '')
+
+        for i, (op, rec) in enumerate(zip(ops, recs)):
+            kind = op['op']
+            call = CALLS[kind]
+            exp_exc = op.get('expect')
+            for r in rec.get('r3', []):
+                out.append((i, call, 'r3:%s:%s' % (r, cls_tag), 'R3: ' + r))
+            if rec['exc'] != exp_exc:
+                if rec['exc']:
+                    tags = ','.join(sorted(op_tags(op, case)))
+                    out.append((i, call, 'exception:%s:%s:%s%s' % (rec['exc'], cls_tag,
+                                                                   'pathloss' if sh.pl is not None else 'no-pathloss',
+                                                                   ('|' + tags) if tags else ''),
+                                rec.get('msg', '')))
+                else:
+                    out.append((i, call, 'no-exception:%s:%s' % (exp_exc, cls_tag), 'expected ' + exp_exc))
+                if kind in MUTATORS or kind in ('corrupt', 'corruptc'):
+                    return out    # the object is no longer in the state the history assumes
+                continue
+            if exp_exc:
+                if kind in ('init', 'rand', 'setpl', 'setw', 'noise', 'corrupt', 'corruptc'):
+                    trig = trig_c = i          # whatever is wrong after a rejected call is charged to it
+                continue
+            if kind in ('init', 'rand'):
+                raw = rec['raw']
+                want = (sum(op['nr']), sum(op['nt']) + sum(op['ntE']))
+                if raw.shape != want:
+                    out.append((i, call, 'raw-shape:%s%s' % (cls_tag, ('|' + ','.join(sorted(op_tags(op, case)))) if op_tags(op, case) else ''),
+                                'raw %s expected %s' % (raw.shape, want)))
+                    return out        # nothing more can be promised about this object
+                if kind == 'init' and not same(raw, unj(op['M'], want[1]), True):
+                    out.append((i, call, 'raw-differs:%s' % cls_tag, 'stored matrix is not the argument'))
+                sh.relayout(np.array(raw, dtype=complex), op['nr'], op['nt'], op['K'], op['ntE'])
+            elif kind == 'setpl':
+                if op['p'] is None:
+                    sh.pl = None
+                else:
+                    p = unjr(op['p'], len(op['p'][0]))
+                    sh.pl = np.hstack([p, unjr(op['pe'], len(op['pe'][0]) if op['pe'] else 0)]) if ext else p
+            elif kind == 'noise':
+                sh.nv = None if op['v'] is None else float(Fraction(op['v']))
             elif kind == 'setw':
-                trig_c = 'setw'
-            continue
-        # ---- reads
-        got = rec['out']
-        bad = None
-        K, Kt = sh.K, len(sh.ntf)
-        if kind == 'H' or kind == 'Hne':
-            cols = Kt if kind == 'H' else K
-            if not (isinstance(got, np.ndarray) and got.shape == (K, cols)):
-                bad = 'shape %s expected %s' % (getattr(got, 'shape', None), (K, cols))
-            else:
-                for k in range(K):
-                    for l in range(cols):
-                        if bad is None and not same(got[k, l], sh.Hkl(k, l), exact):
-                            bad = 'block (%d,%d) differs from raw block * sqrt(current path loss)' % (k, l)
-        elif kind == 'bigH':
-            bad = None if same(got, sh.bigH(), exact) else 'differs from raw * sqrt(current path loss)'
-        elif kind == 'Hkl':
-            bad = None if same(got, sh.Hkl(op['k'], op['l']), exact) else 'differs from the scaled raw block'
-        elif kind == 'Hk':
-            bad = None if same(got, sh.Hk(op['k']), exact) else 'differs from the scaled raw row block'
-        elif kind == 'bigHne':
-            bad = None if same(got, sh.bigH(True), exact) else 'differs from the user columns of the scaled raw matrix'
-        elif kind == 'Hkne':
-            bad = None if same(got, sh.Hk(op['k'], True), exact) else 'differs from the user columns of the row block'
-        elif kind == 'corrupt':
-            noise = rec['noise']
-            xs = [unj(m) for m in op['x']] + [unj(m) for m in op['xe']]
-            ns = xs[0].shape[1]
-            if (noise is None) != (sh.nv is None):
-                out.append((i, 'last_noise', 'presence:%s' % cls_tag,
-                            'last_noise is %s but noise_var is %s' % ('None' if noise is None else 'set', sh.nv)))
-            elif noise is not None and noise.shape != (sum(sh.nr), ns):
-                out.append((i, 'last_noise', 'shape:%s' % cls_tag, 'last_noise shape %s' % (noise.shape,)))
-            else:
-                want = sh.received(xs, noise)
-                if len(got) != K:
-                    bad = '%d outputs for %d receivers' % (len(got), K)
+                sh.W = None if op['w'] is None else [unj(w) for w in op['w']]
+            if kind in MUTATORS:
+                if kind in ('init', 'rand', 'setpl'):
+                    trig = trig_c = i
+                    cached |= {v for v, r in read_since.items() if r}
+                    read_since = {}
+                elif kind == 'setw':
+                    trig_c = i
+                continue
+            # ---- reads
+            if sh.raw is None and kind not in ('nv', 'ln', 'pl', 'bigW'):
+                continue          # no channel was ever accepted: nothing is promised about the views
+            got = rec['out']
+            bad = None
+            K, Kt = sh.K, len(sh.ntf)
+            if kind in ('H', 'Hne'):
+                cols = Kt if kind == 'H' else K
+                if not (isinstance(got, np.ndarray) and got.shape == (K, cols)):
+                    bad = 'shape %s expected %s' % (getattr(got, 'shape', None), (K, cols))
                 else:
                     for k in range(K):
-                        if bad is None and not same(got[k], want[k], exact):
-                            bad = 'receiver %d differs from W^H(sum_l sqrt(pl) H_kl x_l + last_noise)' % k
-        if bad is not None:
-            how = 'cached' if (kind in cached or (kind in ('Hk', 'bigHne', 'Hkne', 'corrupt') and 'bigH' in cached)
-                               or (kind in ('Hkl', 'Hne') and 'H' in cached)) else 'first-read'
-            out.append((i, call, 'wrong:%s:after-%s' % (cls_tag, trig_c if kind == 'corrupt' else trig_h),
-                        bad + ' (%s)' % ('the view had been read before the last change' if how == 'cached' else 'first read of the view')))
-        read_since[kind] = True
-        if kind in ('Hk', 'bigHne', 'Hkne', 'corrupt'):
-            read_since['bigH'] = True
-        if kind in ('Hkl', 'Hne'):
-            read_since['H'] = True
+                        for l in range(cols):
+                            if bad is None and not same(got[k, l], sh.Hkl(k, l), exact):
+                                bad = 'block (%d,%d) differs from raw block * sqrt(current path loss)' % (k, l)
+            elif kind == 'bigH':
+                bad = None if same(got, sh.bigH(), exact) else 'differs from raw * sqrt(current path loss)'
+            elif kind == 'Hkl':
+                bad = None if same(got, sh.Hkl(op['k'], op['l']), exact) else 'differs from the scaled raw block'
+            elif kind == 'Hk':
+                bad = None if same(got, sh.Hk(op['k']), exact) else 'differs from the scaled raw row block'
+            elif kind == 'bigHne':
+                bad = None if same(got, sh.bigH(True), exact) else 'differs from the user columns of the scaled matrix'
+            elif kind == 'Hkne':
+                bad = None if same(got, sh.Hk(op['k'], True), exact) else 'differs from the user columns of the row block'
+            elif kind == 'layout':
+                want = ('layout', sh.K, list(sh.nr), list(sh.nt), list(sh.ntE), len(sh.ntE))
+                bad = None if tuple(got) == want else 'K/Nr/Nt/extIntNt are %s, the configuration is %s' % (got[1:], want[1:])
+            elif kind == 'pl':
+                bad = None if same(got[1], sh.pl, True if exact else False) else 'pathloss is not the matrix set last'
+            elif kind == 'bigW':
+                bad = None if same(got[1], sh.bigW(), exact) else 'big_W is not block_diag of the filters set last'
+                if bad is None and (rec.get('W') is None) != (sh.W is None):
+                    bad = 'W presence'
+                if bad is None and sh.W is not None and not all(same(a, b, exact) for a, b in zip(rec['W'], sh.W)):
+                    bad = 'W is not the list of filters set last'
+            elif kind == 'nv':
+                g = got[1]
+                bad = None if ((g is None) == (sh.nv is None) and (g is None or float(g) == sh.nv)) \
+                    else 'noise_var is %r, set last: %r' % (g, sh.nv)
+            elif kind == 'ln':
+                bad = None if same(got[1], sh.ln, exact) else 'last_noise is not the noise of the last transmission'
+            elif kind in ('corrupt', 'corruptc'):
+                noise = rec['noise']
+                ns = op.get('ns', len(op['x'][0][0]) if op['x'] and op['x'][0] else 0)
+                xs = [unj(m).reshape(len(m), ns) for m in op['x']] + [unj(m).reshape(len(m), ns) for m in op['xe']]
+                if (noise is None) != (sh.nv is None):
+                    out.append((i, 'last_noise', klass('presence', i, True),
+                                'last_noise is %s but noise_var is %s' % ('None' if noise is None else 'set', sh.nv)))
+                elif noise is not None and noise.shape != (sum(sh.nr), ns):
+                    out.append((i, 'last_noise', klass('shape', i, True), 'last_noise shape %s' % (noise.shape,)))
+                else:
+                    sh.ln = noise
+                    if kind == 'corrupt':
+                        want = sh.received(xs, noise)
+                        if len(got) != K:
+                            bad = '%d outputs for %d receivers' % (len(got), K)
+                        else:
+                            for k in range(K):
+                                if bad is None and not same(got[k], want[k], exact):
+                                    bad = 'receiver %d differs from W^H(sum_l sqrt(pl) H_kl x_l + last_noise)' % k
+                    else:
+                        want = sh.received(xs, noise, split=False)
+                        bad = None if same(got, want, exact) else 'differs from W^H(big_H x + last_noise)'
+            if bad is not None:
+                how = 'cached' if (kind in cached or (kind in ('Hk', 'bigHne', 'Hkne', 'corrupt', 'corruptc')
+                                                      and 'bigH' in cached)
+                                   or (kind in ('Hkl', 'Hne') and 'H' in cached)) else 'first-read'
+                out.append((i, call, klass('wrong', i, kind in ('corrupt', 'corruptc', 'bigW', 'ln')),
+                            bad + ' (%s)' % ('the view had been read before the last change' if how == 'cached'
+                                             else 'first read of the view')))
+            read_since[kind] = True
+            if kind in ('Hk', 'bigHne', 'Hkne', 'corrupt', 'corruptc'):
+                read_since['bigH'] = True
+            if kind in ('Hkl', 'Hne'):
+                read_since['H'] = True
+        # ---- R7: after the whole history the object behaves like a freshly built one
+        if sh.raw is not None and not out and not any(r['exc'] and not o.get('expect') for o, r in zip(ops, recs)):
+            try:
+                tw = fresh_twin(case, sh)
+                a, b = observe(ch, ext, sh, exact), observe(tw, ext, sh, exact)
+                for key in b:
+                    if not eqv(a.get(key), b[key], exact):
+                        out.append((len(ops) - 1, 'fresh-twin', 'r7:differs-from-fresh-object:%s:%s' % (
+                            ''.join(c for c in key if not c.isdigit() and c != ','), cls_tag),
+                            '%s of the long-lived object differs from a fresh object with the same configuration' % key))
+                        break
+            except core.Infra:
+                raise
+            except Exception as e:   # noqa
+                out.append((len(ops) - 1, 'fresh-twin', 'r7:exception:%s:%s' % (type(e).__name__, cls_tag), str(e)[:160]))
     return out
 
 
@@ -667,10 +1286,7 @@ def _oracle_for(call):
     return f
 
 
-ORACLES = {c: _oracle_for(c) for c in
-           ['H', 'big_H', 'get_Hkl', 'get_Hk', 'big_H_no_ext_int', 'get_Hk_without_ext_int', 'H_no_ext_int',
-            'corrupt_data', 'last_noise', 'init_from_channel_matrix', 'randomize', 'set_pathloss', 'noise_var',
-            'set_post_filter']}
+ORACLES = {c: _oracle_for(c) for c in sorted(set(CALLS.values()) | {'last_noise', 'fresh-twin'})}
 
 
 def replay(ctx, rep):
@@ -678,22 +1294,27 @@ def replay(ctx, rep):
 
 
 def well_shaped(case):
-    """the arguments of every operation have the documented shapes for the layout at that point
-    (the python twin of `OpOK`, plus data / filter shapes and index ranges)"""
+    """every ACCEPTED operation has the documented argument shapes for the layout at that point (the python
+    twin of `OpOK`, plus data / filter shapes and index ranges); operations marked `expect` are the
+    deliberately rejected calls"""
     ext = case['cls'] == 'ext'
     ops = case['ops']
-    if not ops or ops[0]['op'] not in ('init', 'rand') or ops[0].get('expect'):
-        return False
     K, nr, nt, ntE, w_rows = 0, [], [], [], None
-    for j, op in enumerate(ops):
+    started = False
+    for op in ops:
         k = op['op']
-        if k in ('init', 'rand'):
-            if op.get('expect'):
-                # the ExtInt override stores _extIntK before the check: the layout must be re-established at once
-                if ext and not (j + 1 < len(ops) and ops[j + 1]['op'] in ('init', 'rand')
-                                and not ops[j + 1].get('expect')):
-                    return False
+        if not started:
+            if k in ('init', 'rand') and not op.get('expect'):
+                started = True
+            elif k == 'noise' or (k == 'setw' and op['w'] is None) or (k == 'setpl' and op['p'] is None) or k == 'nv':
                 continue
+            else:
+                return False
+        if op.get('expect'):
+            if k in ('Hkl', 'Hk', 'Hkne') and op['k'] < K:
+                return False
+            continue
+        if k in ('init', 'rand'):
             if len(op['nr']) != op['K'] or len(op['nt']) != op['K'] or (ext and not op['ntE']) \
                     or (not ext and op['ntE']) or min(op['nr'] + op['nt'] + op['ntE'] + [1]) < 1 or op['K'] < 1:
                 return False
@@ -708,18 +1329,16 @@ def well_shaped(case):
                 return False
         elif k == 'setw':
             w_rows = None if op['w'] is None else [len(w) for w in op['w']]
-        elif k == 'corrupt':
+        elif k in ('corrupt', 'corruptc'):
             if w_rows is not None and w_rows != list(nr):
                 return False
             if [len(m) for m in op['x']] != list(nt) or [len(m) for m in op['xe']] != list(ntE):
                 return False
-        elif k == 'Hkl' and not op.get('expect') and not (op['k'] < K and op['l'] < K + len(ntE)):
+        elif k == 'Hkl' and not (op['k'] < K and op['l'] < K + len(ntE)):
             return False
-        elif k in ('Hk', 'Hkne') and not op.get('expect') and not op['k'] < K:
+        elif k in ('Hk', 'Hkne') and not op['k'] < K:
             return False
-        elif k in ('Hkl', 'Hk', 'Hkne') and op.get('expect') and op['k'] < K:
-            return False
-    return True
+    return started
 
 
 def minimise(case, call, cls):
@@ -740,8 +1359,10 @@ def minimise(case, call, cls):
             ops = ops[:i + 1]
             break
     changed = True
-    while changed and len(ops) > 1:
+    rounds = 0
+    while changed and len(ops) > 1 and rounds < 4:
         changed = False
+        rounds += 1
         for j in range(len(ops) - 2, -1, -1):
             trial = ops[:j] + ops[j + 1:]
             if fails(trial):
@@ -750,14 +1371,17 @@ def minimise(case, call, cls):
     return dict(case, ops=ops)
 
 
-def run_oracle(ctx, case, key):
+def run_oracle(ctx, case, key, budget=[0]):
     if not well_shaped(case):
         raise core.Infra('generator produced an ill-shaped history: %s' % json.dumps(case)[:400])
     viol = oracle_history(case)
     ctx.count(('oracle', key), True, n=len(case['ops']))
     seen = set()
     for (i, call, cls, detail) in viol:
-        if (call, cls) in seen:
+        if (call, cls) in seen or any(f['call'] == call and f['class'] == cls for f in ctx.failures):
+            continue
+        if len(ctx.failures) >= 30:       # enough distinct replays; every class so far is reported
+            ctx.branch('oracle-fail-not-listed')
             continue
         seen.add((call, cls))
         small = minimise(case, call, cls)
@@ -765,6 +1389,7 @@ def run_oracle(ctx, case, key):
         ctx.branch('oracle-fail:' + call)
     if not viol:
         ctx.branch('oracle-ok:' + case['cls'] + ':' + case.get('stream', 'exact'))
+        ctx.branch('r7:twin')
     return viol
 
 
@@ -778,8 +1403,8 @@ def nontrivial_flags(ops):
         k = op['op']
         if k in MUTATORS:
             stale |= seen
-            flags.append(False)
-        elif k == 'corrupt':
+            flags.append(bool(op.get('expect')))
+        elif k in ('corrupt', 'corruptc'):
             flags.append(True)
             seen.add('bigH')
         else:
@@ -790,6 +1415,47 @@ def nontrivial_flags(ops):
     return flags
 
 
+def note_branches(ctx, case):
+    """which robustness classes a history exercises (required branches)"""
+    ops = case['ops']
+    if case.get('mode') == 'typed':
+        ctx.branch('r1:typed-history')
+    if case.get('mode') == 'scaled':
+        ctx.branch('r6:scaled-history')
+    nvpos = False
+    for j, op in enumerate(ops):
+        k = op['op']
+        t = op_tags(op, case)
+        if 'R1' in t:
+            ctx.branch('r1:typed-argument')
+        if 'R2' in t:
+            ctx.branch('r2:non-contiguous-argument')
+        if op.get('scr'):
+            ctx.branch('r3:scribble-out' if k not in MUTATORS + ('corrupt', 'corruptc') else 'r3:scribble-in')
+        if op.get('expect'):
+            ctx.branch('r4:rejected-' + {'init': 'init', 'rand': 'randomize', 'setpl': 'set_pathloss',
+                                         'noise': 'noise_var', 'corrupt': 'corrupt_data'}.get(k, 'read'))
+        if k == 'setpl' and op.get('p') and any(Fraction(x) == 0 for row in op['p'] for x in row):
+            ctx.branch('r5:pathloss-zero')
+        if k in ('init', 'rand') and not op.get('expect') and op['K'] == 1:
+            ctx.branch('r5:K=1')
+        if k in ('corrupt', 'corruptc') and not op.get('expect'):
+            if op.get('ns') == 0:
+                ctx.branch('r5:zero-symbols')
+            nv = [o for o in ops[:j] if o['op'] == 'noise' and not o.get('expect')]
+            if nv and nv[-1]['v'] is not None:
+                if Fraction(nv[-1]['v']) > 0:
+                    nvpos = True
+                elif nvpos:
+                    ctx.branch('r5:noise-var-zero-after-positive')
+        if k == 'corruptc':
+            ctx.branch('r7:corrupt_concatenated_data')
+        if op.get('pre'):
+            ctx.branch('r7:mutators-before-first-init')
+        if k in ('layout', 'pl', 'bigW', 'nv', 'ln'):
+            ctx.branch('r7:observer:' + k)
+
+
 def correspond(ctx, cases, tag):
     drv = core.Driver(DRIVER)
     batch = []
@@ -797,19 +1463,22 @@ def correspond(ctx, cases, tag):
         if not well_shaped(case):
             raise core.Infra('generator produced an ill-shaped history: %s' % json.dumps(case)[:400])
         recs = run_impl(case)
-        batch.append((case, recs, model_line(case, recs)))
+        line, idx = model_line(case, recs)
+        batch.append((case, recs, line, idx))
+        note_branches(ctx, case)
     replies = []
     for i in range(0, len(batch), 500):
         replies += drv.ask([b[2] for b in batch[i:i + 500]])
-    for hid, ((case, recs, line), reply) in enumerate(zip(batch, replies)):
+    for hid, ((case, recs, line, idx), reply) in enumerate(zip(batch, replies)):
         mtoks = reply.split(' ')
         ops = case['ops']
-        if len(mtoks) != len(ops):
-            ctx.tie_broken('correspondence', 'driver-reply', 'reply %r for %d ops' % (reply[:200], len(ops)), case)
+        if len(mtoks) != len(idx):
+            ctx.tie_broken('correspondence', 'driver-reply', 'reply %r for %d ops' % (reply[:200], len(idx)), case)
             continue
         flags = nontrivial_flags(ops)
         rmr = False
-        for j, (op, rec, mt) in enumerate(zip(ops, recs, mtoks)):
+        for j, mt in zip(idx, mtoks):
+            op, rec = ops[j], recs[j]
             it = impl_token(op, rec)
             name = '%s:%s' % (case['cls'], op['op'])
             ok = ctx.corr(name, {'history': tag, 'id': hid, 'op': j} if it == mt else dict(case, at=j),
@@ -817,16 +1486,17 @@ def correspond(ctx, cases, tag):
             ctx.branch('op:' + name)
             if rec['exc']:
                 ctx.branch('err:' + rec['exc'])
-            if flags[j] and op['op'] != 'corrupt':
+            if flags[j] and op['op'] not in ('corrupt', 'corruptc') and not op.get('expect'):
                 rmr = True
             if not ok:
                 break
         if rmr:
             ctx.branch('read-mutate-read:' + case['cls'])
-        if any(op['op'] in ('init', 'rand') for op in ops[1:]):
+        if any(op['op'] in ('init', 'rand') and not op.get('expect') for op in ops[1:]):
             ctx.branch('relayout:' + case['cls'])
         if hid < 2 and tag == 'seeded':
-            ctx.sample({'cls': case['cls'], 'ops': [o['op'] for o in ops], 'model_reply': reply[:300]})
+            ctx.sample({'cls': case['cls'], 'mode': case.get('mode'), 'ops': [o['op'] for o in ops],
+                        'model_reply': reply[:300]})
 
 
 # ------------------------------------------------------------------ corpus (always run first)
@@ -865,6 +1535,26 @@ def builtin_corpus():
         {'op': 'Hne'},
         {'op': 'setpl', 'p': [['1', '1/4'], ['1/4', '1']], 'pe': [['1/16'], ['1/64']]},
         {'op': 'Hne'}]})
+    # R4 (seeded change C08_3): rejected init_from_channel_matrix with ANOTHER antenna configuration in the
+    # middle of a history; then every observable, then a transmission
+    for cls, E in (('plain', []), ('ext', [2])):
+        M1 = A if E else [row[:3] for row in A]
+        obs = [{'op': v} for v in ('layout', 'bigH', 'H', 'pl', 'ln')] + [{'op': 'Hk', 'k': 0}, {'op': 'Hk', 'k': 1}]
+        pe = [['1/16'], ['1/64']] if E else None
+        tx = {'op': 'corrupt', 'x': [_m([[1, 2], [1j, 0]]), _m([[2, -1]])], 'xe': [_m([[1, 1], [0, 1j]])] if E else [],
+              'nseed': 5, 'ns': 2}
+        cases.append({'cls': cls, 'stream': 'exact', 'name': cls + '-rejected-init-other-layout', 'ops': [
+            {'op': 'init', 'M': M1, 'nr': [1, 2], 'nt': [2, 1], 'K': 2, 'ntE': E},
+            {'op': 'setpl', 'p': [['1', '1/4'], ['1/4', '1']], 'pe': pe},
+            {'op': 'noise', 'v': '1'}, tx,
+            {'op': 'init', 'M': M1, 'nr': [2, 2], 'nt': [1, 1], 'K': 2, 'ntE': E, 'expect': 'ValueError'}] + obs + [
+            {'op': 'init', 'M': M1, 'nr': [2, 1, 1], 'nt': [1, 1, 1], 'K': 2, 'ntE': E + E, 'expect': 'ValueError'}]
+            + obs + [tx,
+            {'op': 'rand', 'nr': [2, 1], 'nt': [1, 1, 1], 'K': 2, 'ntE': E, 'seed': 3, 'expect': 'ValueError'}] + obs + [
+            {'op': 'setpl', 'p': [['1']], 'pe': [['1']] if E else None, 'expect': 'IndexError'}] + obs + [
+            {'op': 'noise', 'v': '-1', 'expect': 'AssertionError'}, {'op': 'nv'},
+            # R5: noise variance exactly 0.0 after a positive one
+            {'op': 'noise', 'v': '0'}, tx, {'op': 'ln'}]})
     return cases
 
 
@@ -877,8 +1567,9 @@ def corpus_cases():
                 with open(os.path.join(d, fn)) as f:
                     c = json.load(f)
                 cases.append(c.get('case', c))
-    if CFG == 'orig':
-        cases = [c for c in cases if c.get('name') != 'plain-relayout-other-shape']
+    if CFG == 'orig':      # developer knob: only the histories the design-round code has a defined behaviour for
+        cases = [c for c in cases if c.get('name') in ('ext-second-setpl', 'plain-relayout-same-shape',
+                                                       'ext-hnoext-pathloss')]
     return cases
 
 
@@ -943,26 +1634,41 @@ def seeded_cases(ctx, n, maxlen, exact=True):
     cases = []
     for i in range(n):
         ext = bool(i % 2)
-        g = Gen(ctx.rng.fork('h%d' % i), ext, exact=exact)
+        mode = ('plain', 'typed', 'scaled', 'plain', 'typed')[(i // 2) % 5] if exact else ('plain', 'scaled')[(i // 2) % 2]
+        g = Gen(ctx.rng.fork('h%d' % i), ext, exact=exact, mode=mode)
         ops = g.history(ctx.rng.randint(2, maxlen))
-        cases.append({'cls': 'ext' if ext else 'plain', 'stream': 'exact' if exact else 'float', 'ops': ops})
+        cases.append({'cls': 'ext' if ext else 'plain', 'stream': 'exact' if exact else 'float', 'mode': mode,
+                      'ops': ops})
     return cases
+
+
+REQUIRED = ['read-mutate-read:plain', 'read-mutate-read:ext', 'relayout:plain', 'relayout:ext',
+            'op:plain:corrupt', 'op:ext:corrupt', 'err:ValueError', 'err:IndexError', 'err:AssertionError',
+            'r1:typed-history', 'r1:typed-argument', 'r2:non-contiguous-argument', 'r3:scribble-in',
+            'r3:scribble-out', 'r4:rejected-init', 'r4:rejected-randomize', 'r4:rejected-set_pathloss',
+            'r4:rejected-noise_var', 'r4:rejected-corrupt_data', 'r4:rejected-read', 'r5:pathloss-zero', 'r5:K=1',
+            'r5:zero-symbols', 'r5:noise-var-zero-after-positive', 'r6:scaled-history',
+            'r7:corrupt_concatenated_data', 'r7:mutators-before-first-init', 'r7:observer:layout',
+            'r7:observer:ln', 'r7:twin']
 
 
 def check(ctx):
     quick = ctx.tier == 'quick'
-    ctx.rule = ('histories: init, then ops drawn from {init/randomize with a fresh layout (K 1..4, antennas 1..3, '
-                'unequal), set_pathloss(matrix|None), noise_var, set_post_filter, bursts of reads of every view, '
-                'corrupt_data}, plain and ExtInt alternating, length 2..L; exact stream (Gaussian integers, '
-                'square path losses, integer RNG) compared token by token with the Lean model; the same '
-                'generator with real floats for the oracle-only stream; evaluations = operations executed; '
-                'non-trivial = a read of a view that was read before the latest mutation (read-mutate-read) or a '
-                'corrupt_data')
+    ctx.rule = ('histories: (optionally mutators on the fresh object,) init, then ops drawn from {init/randomize with '
+                'a fresh layout (K 1..4, antennas 1..3, unequal), set_pathloss(matrix|None), noise_var, '
+                'set_post_filter, bursts of reads of every view and observer (K/Nr/Nt, pathloss, big_W/W, noise_var, '
+                'last_noise), corrupt_data / corrupt_concatenated_data (0..3 symbols), REJECTED calls of every '
+                'mutator with arguments that differ from the current configuration followed by a read of every '
+                'observable}; plain and ExtInt alternating; modes plain / typed (narrow dtypes, python and numpy '
+                'scalars, lists, Fortran / transposed / strided / reversed / broadcast views) / scaled (inputs times '
+                '2^+-40 resp. 10^+-12); the caller overwrites its own buffers and the returned arrays after ~30% of '
+                'the calls; length 2..L; exact stream (Gaussian integers, square path losses, integer RNG) compared '
+                'token by token with the Lean model, the same generator with real floats for the oracle-only stream; '
+                'evaluations = operations executed; non-trivial = a read of a view that was read before the latest '
+                'mutation (read-mutate-read), a transmission, or a rejected call')
     core.prove(ctx, MODULE, generated=[], drivers=[DRIVER], scratch=ctx.scratch)
-    ctx.required_branches = ['read-mutate-read:plain', 'read-mutate-read:ext', 'relayout:plain', 'relayout:ext',
-                             'op:plain:corrupt', 'op:ext:corrupt', 'err:ValueError', 'err:IndexError',
-                             'err:AssertionError']
-    n_hist, maxlen = (400, 30) if quick else (6000, 60)
+    ctx.required_branches = list(REQUIRED)
+    n_hist, maxlen = (500, 30) if quick else (6000, 60)
     corpus = corpus_cases()
     cases = seeded_cases(ctx, n_hist, maxlen)
     try:
@@ -987,7 +1693,7 @@ def check(ctx):
     # independent oracles on the real code
     for i, c in enumerate(corpus):
         run_oracle(ctx, c, ('corpus', i))
-    for i, c in enumerate(cases[:n_hist if quick else 2000]):
+    for i, c in enumerate(cases[:n_hist if quick else 2500]):
         run_oracle(ctx, c, ('seeded', i))
     for i, c in enumerate(seeded_cases(ctx, 150 if quick else 1500, maxlen, exact=False)):
         run_oracle(ctx, c, ('float', i))
